@@ -71,6 +71,8 @@ func isToLower(v ssa.Value) (ssa.Value, bool) {
 }
 
 func c17Tables(c *Ctx, p *Prog, m *Model) {
+	lowerProg = p
+	defer func() { lowerProg = nil }()
 	r := c.R
 	l2s, err1 := mapLiteral(p, p.Slog, "levelToString")
 	s2l, err2 := mapLiteral(p, p.Slog, "stringToLevel")
@@ -631,6 +633,7 @@ func c17Register(c *Ctx, p *Prog, m *Model) {
 	// free first: the store's key is dominated by the miss edge of a lookup of that very name, or is an element of
 	// a local list every element of which was so tested before it was appended
 	pg := p.Global(p.Slog, "stringToLevel")
+	var curStoreBlock *ssa.BasicBlock
 	var freeAt func(v ssa.Value, b *ssa.BasicBlock, depth int) bool
 	var listFree func(sv ssa.Value, depth int, seen map[ssa.Value]bool) bool
 	freeAt = func(v ssa.Value, b *ssa.BasicBlock, depth int) bool {
@@ -677,6 +680,47 @@ func c17Register(c *Ctx, p *Prog, m *Model) {
 		switch x := sv.(type) {
 		case *ssa.Const:
 			return x.IsNil()
+		case *ssa.UnOp:
+			// a list kept in a field of the registration pack (filled by an option): free when an earlier loop of the
+			// same function looks every element of that same field list up in the parse table (the hit edge is the
+			// refusal judged by refusal:title-test / value-hit-fails) and that loop is finished before this use
+			if fa, ok := x.X.(*ssa.FieldAddr); ok && x.Op == token.MUL && curStoreBlock != nil {
+				lk := exprKey(fa)
+				for _, b := range curStoreBlock.Parent().Blocks {
+					for _, in := range b.Instrs {
+						look, ok := in.(*ssa.Lookup)
+						if !ok || !look.CommaOk {
+							continue
+						}
+						if gg, ok := globalLoad(look.X); !ok || gg != pg {
+							continue
+						}
+						el, ok := strip(look.Index).(*ssa.UnOp)
+						if !ok {
+							continue
+						}
+						ia, ok := el.X.(*ssa.IndexAddr)
+						if !ok {
+							continue
+						}
+						ld, ok := strip(ia.X).(*ssa.UnOp)
+						if !ok {
+							continue
+						}
+						f2, ok := ld.X.(*ssa.FieldAddr)
+						if !ok || exprKey(f2) != lk || !fullIndexLoop(ia.Index, ia.X) {
+							continue
+						}
+						// the test loop is over before the store: its header dominates the store block and the store is
+						// outside that loop
+						h, body := natLoop(b)
+						if h != nil && h.Dominates(curStoreBlock) && !body[curStoreBlock] {
+							return true
+						}
+					}
+				}
+			}
+			return false
 		case *ssa.Phi:
 			for _, e := range x.Edges {
 				if !listFree(e, depth+1, seen) {
@@ -728,6 +772,7 @@ func c17Register(c *Ctx, p *Prog, m *Model) {
 				if _, isPrm := k.(*ssa.Parameter); isPrm {
 					continue
 				}
+				curStoreBlock = b
 				r.Check(freeAt(mu.Key, b, 0), "R17.3", "refusal:extra-name:"+shortName(fn), p.Pos(instrPos(mu)), "a further name is entered into the parse table only after it was found free", "a registration enters a further name into the parse table without having tested that the name is free: an existing level's name is silently re-pointed to the new level (its printed name then parses to another level), and the registration still succeeds")
 			}
 		}
@@ -1263,6 +1308,9 @@ func lowerCased(v ssa.Value, depth int) bool {
 	return false
 }
 
+var lowerProg *Prog
+var lowerFieldBusy = map[string]bool{}
+
 // sliceAllLower: every element the local slice s can hold was lower-cased (s is nil, or append(s', elems...) with
 // s' of the same kind and every element lower-cased).
 func sliceAllLower(s ssa.Value, depth int, seen map[ssa.Value]bool) bool {
@@ -1277,6 +1325,36 @@ func sliceAllLower(s ssa.Value, depth int, seen map[ssa.Value]bool) bool {
 	switch x := s.(type) {
 	case *ssa.Const:
 		return x.IsNil()
+	case *ssa.UnOp:
+		// a list kept in a struct field (the registration pack): every store to that field anywhere in the package stores
+		// an all-lower-cased list (the field's own value extended by lower-cased elements)
+		fa, ok := x.X.(*ssa.FieldAddr)
+		if !ok || x.Op != token.MUL || lowerProg == nil {
+			return false
+		}
+		st := structOf(fa.X.Type())
+		if st == nil {
+			return false
+		}
+		key := typeName(fa.X.Type()) + "." + st.Field(fa.Field).Name()
+		if lowerFieldBusy[key] {
+			return true
+		}
+		lowerFieldBusy[key] = true
+		defer delete(lowerFieldBusy, key)
+		n := 0
+		for _, fn := range lowerProg.RepoFuncs() {
+			for _, fs := range fieldStores(fn) {
+				if fs.Struct+"."+fs.Field != typeName(fa.X.Type())+"."+nm(st.Field(fa.Field)) {
+					continue
+				}
+				n++
+				if !sliceAllLower(fs.Val, depth+1, map[ssa.Value]bool{}) {
+					return false
+				}
+			}
+		}
+		return n > 0
 	case *ssa.Phi:
 		for _, e := range x.Edges {
 			if !sliceAllLower(e, depth+1, seen) {
